@@ -41,6 +41,9 @@ func main() {
 		}
 		return strings.Join(tr, ";")
 	})
+	// rt <cfg> <observation> <t0B> <t0C> <ops B...> <ops C...>: a RECORDED real-time execution (tables/realtime.go): the
+	// observation was taken from the library while the schedule ran with real sleeps; the model gets the measured intervals
+	r.Register("rt", func(a []string) string { return a[1] })
 	if r.Replayed() {
 		return
 	}
@@ -65,6 +68,7 @@ func main() {
 			r.Stat("op."+o[:1], 1)
 		}
 	}
+	rtBatch(r, rng)
 	nShort, nLong := 400, 600
 	if r.Thorough() {
 		nShort, nLong = 4000, 15000
@@ -122,5 +126,21 @@ func main() {
 	for i := 0; i < 2*nOff; i++ {
 		run(g.DHCPExchangeHistory())
 		r.Stat("class.dhcp-exchange", 1)
+	}
+}
+
+// rtBatch: real-time histories in parallel sessions (about 8 s of wall time in quick)
+func rtBatch(r *lib.Run, rng *lib.Rand) {
+	n := 120
+	if r.Thorough() {
+		n = 1200
+	}
+	for _, res := range tables.RealTimeBatch(rng, n, 40) {
+		if res.Ambiguous {
+			r.Stat("rt.timing-ambiguous-discarded", 1)
+			continue
+		}
+		r.Do("rt", res.Args...)
+		r.Stat("class.real-time", 1)
 	}
 }
